@@ -21,6 +21,12 @@
     units.kwitem  <KEYWORD.record.ITEM>      -> dim,dim,… | none        (JSON side of one parser item)
     units.kwitemcount                        -> number of dimensioned items on the JSON side
     units.sol     <sys> <calls F|T…> <m:x,x;m:x…>  -> <si 0|1> <m:x,x;…>   (data::Solution conversions)
+    units.tosi_s   <sys> <string> <x>        -> <bits> | err            (to_si(const std::string&, double))
+    units.fromsi_s <sys> <string> <x>        -> <bits> | err
+    units.ub       <string>                  -> 0 | 1                   (would parse() index parts[1] out of bounds?)
+    units.udadim   <sys> <UDAControl name>   -> <scale> <offset> | err  (uda_dim)
+    units.fpunits                            -> SECTION.KW=<hex unit>,… sorted (FieldProps.hpp unit strings)
+    units.fpsi     <sys> <SECTION> <KW> <x>  -> <bits> | err            (FieldProps::getSIValue's conversion)
 
   Exact operations (the op line carries the double the REAL code produced; the model evaluates
   the same expression exactly in `Rat`, derives the rigorous rounding bound `k·u·mag` of the
@@ -33,11 +39,12 @@
     units.parse_q   <sys> <string> <scale>   -> ok | differs <num/den> | err
 -/
 import OpmVerif.Model.Units
+import OpmVerif.Model.UnitsUse
 import OpmVerif.Model.Basic
 -- driver: prefix=units handler=OpmVerif.Units.handle
 
 namespace OpmVerif.Units
-open OpmVerif.Gen.Units
+open OpmVerif.Gen.Units OpmVerif.Gen.UnitsUse
 
 def hexNat (s : String) : Option Nat :=
   s.toList.foldl (fun acc c => match acc, hexVal c with
@@ -166,6 +173,40 @@ def handle (op : String) (args : List String) : String :=
       | .err => "err"
     | _, _, _, _ => "bad-op"
   | "units.kwitemcount", [] => toString keywordItemDims.length
+  | "units.tosi_s", [s, strHex, x] =>
+    match sysAt Float s, strOfHex strHex, floatOfHex x with
+    | some sd, some str, some xv =>
+      match toSIStr sd str xv with
+      | some y => showFloat y
+      | none => "err"
+    | _, _, _ => "bad-op"
+  | "units.fromsi_s", [s, strHex, x] =>
+    match sysAt Float s, strOfHex strHex, floatOfHex x with
+    | some sd, some str, some xv =>
+      match fromSIStr sd str xv with
+      | some y => showFloat y
+      | none => "err"
+    | _, _, _ => "bad-op"
+  | "units.ub", [strHex] =>
+    match strOfHex strHex with
+    | some str => if parseUB str.toList then "1" else "0"
+    | none => "bad-op"
+  | "units.udadim", [s, c] =>
+    match sysAt Float s with
+    | some sd =>
+      match udaDimOf sd c with
+      | some d => showDimF d
+      | none => "err"
+    | none => "bad-op"
+  | "units.fpunits", [] =>
+    ",".intercalate ((fieldPropsUnits.map fun e => e.1 ++ "." ++ e.2.1 ++ "=" ++ hexOfStr e.2.2).toArray.qsort (· < ·)).toList
+  | "units.fpsi", [s, sec, kw, x] =>
+    match sysAt Float s, floatOfHex x with
+    | some sd, some xv =>
+      match fieldPropsSI sd sec kw xv with
+      | some y => showFloat y
+      | none => "err"
+    | _, _ => "bad-op"
   | "units.sol", [s, calls, cells] =>
     match sysAt Float s, (if cells = "-" then some [] else (cells.splitOn ";").mapM parseCell) with
     | some sd, some cs =>
